@@ -17,11 +17,16 @@ class Check(EngineCheck):
                 "LLBuild.Refine.refinement_final", "LLBuild.Refine.refinement_build", "LLBuild.Refine.opOk_iff_noBad",
                 "LLBuild.Refine.EngineImpl_sound_C01", "LLBuild.Refine.EngineImpl_sound_C02_once",
                 "LLBuild.Refine.EngineImpl_sound_C05_quiescent",
-                "LLBuild.Refine.build_terminates", "LLBuild.Refine.refinement_final_sized", "LLBuild.Refine.EngineImpl_terminates"]
+                "LLBuild.Refine.build_terminates", "LLBuild.Refine.refinement_final_sized", "LLBuild.Refine.EngineImpl_terminates",
+                # free-running completion threads / cancellation from any thread at every item boundary
+                "LLBuild.Refine.runBuildA_refines", "LLBuild.Refine.refinement_final_async", "LLBuild.Refine.build_terminates_async",
+                "LLBuild.Refine.EngineImpl_sound_C01_async", "LLBuild.Refine.EngineImpl_terminates_async",
+                "LLBuild.Refine.EngineImpl_sound_C05_quiescent_async", "LLBuild.Refine.EngineImpl_async_nil"]
     mix = [(0.45, {}), (0.35, {"threads": True}), (0.2, {"foreign_cancel": True})]
     budget = (300, 3000)
     cross_schedule = True
     assumptions = EngineCheck.assumptions + [
+        "completions and cancellation arriving from other threads: proved for every interleaving at ITEM granularity on the concrete engine model (refinement_final_async, build_terminates_async); that instruction-level interleavings of the C++ reduce to those (shared state: finishedTaskInfos under its mutex, the completing rule's own result, the atomic buildCancelled) is an assumption about the C++ memory model (notes/REFINE.md section 9)",
         "lost wake-ups, deadlock and exactly-once hand-off are proved at LOCK GRANULARITY on a model of the two critical sections (Model/Handshake.lean) whose shape parameters are read from the source by the fingerprint extractor; data races below lock granularity (C++ memory model) are not expressible; the free-threaded harness runs exercise the real code",
         "equality of the executed set across schedules is decided by the python oracle (same history, two schedules), not by a theorem",
         "refinement_final: hypotheses RulesOk (request kinds <= 2, ids <= kMaximumInputID, ids distinct within a rule) and histOk (no build emits the concrete model's FUEL/BAD markers), which refinement_final_sized replaces by the computable size condition histSized (workBound + 2 < scanFuel at every build; build_terminates); the concrete model does not cover injected database write failures, forked crashes, free-running completion threads, or a delegate that resolves cycles"]
